@@ -111,11 +111,18 @@ CHECKS = {
              'delta(delta x) are literally zero for every well-formed argument (eval_isImg + eval_img_isZero => d_d_zero, '
              'delta_delta_zero), d vanishes on every linear combination of top forms, delta on 0-forms, hodge(hodge x) of '
              'every linear combination of forms is again hodge-free with the (-1)^(k(n-k)) signs, degree arithmetic of '
-             'infere_type (k+1, k-1, n-k, k+l, refusal of mixed sums). The model is tied to the code by a differential '
-             'run on every operator application of random programs, plus an independent oracle on the real API.',
+             'infere_type (k+1, k-1, n-k, k+l, constant multiples keep the degree (infer_cmul), refusal of mixed sums). '
+             'Constant coefficients are numbers, Constants and powers of those (c*c = c**2; repo fix 5022685, former '
+             'finding C19-coef-pow): every theorem covers products with such factors, and eval_coef_zero, eval_smul, '
+             'eval_pow_smul, hodge_hodge_cmul state the coefficient laws literally. The model is tied to the code by a '
+             'differential run on every operator application of random programs (coefficient powers are ordinary '
+             'generated inputs), plus an independent oracle on the real API.',
         note='Trusted: Lean kernel (+propext/Classical.choice/Quot.sound), the correspondence harness, sympy Add/Mul '
              'canonicalisation between two applications (predicate preservation asserted on every real output, not proved); '
-             'semantic linearity is checked by the oracle, the theorems are syntactic normal-form statements.',
+             'semantic linearity is checked by the oracle, the theorems are syntactic normal-form statements. Outside the '
+             'theorems (hypothesis WF): a product of coefficients only, on which d/delta/hodge return the product itself '
+             '(d(2*c) = 2*c, since the fix also d(c**2*e**2)); powers whose exponent is a sum or product (c**(e+1)) are '
+             'not coefficients for the code nor for sympde.calculus.core.is_constant and are not generated.',
         technique='Lean 4 proof by mutual structural induction on the expression tree + differential correspondence',
         design='6/C19'),
 }
@@ -151,15 +158,25 @@ CHECKS['C20'] = dict(
          'every other failure is a ValueError raised by a colon-bearing piece ("missing end range" iff it ends with the '
          'colon); containers are expanded item-wise without seq, keeping their type; element_shape / elements_shape - '
          'names, nesting, container type and component space of every created function for scalar, vector and product '
-         'spaces (zip semantics). The model is tied to the code by a three-way differential run (model vs '
+         'spaces (zip semantics); element_of_spec - for EVERY string, element_of on a scalar/vector space succeeds iff '
+         'the expansion is exactly one bare name and then creates the function of that expanded name, refuses a '
+         'container (several names, trailing comma, range) with ValueError and passes every error of the expansion on; '
+         'element_of_layout / element_of_escaped / element_of_blank - on the grammar (one name, padding dropped, two '
+         'blank-separated names refused), for escaped names (u\\ v is named "u v") and for empty / all-blank patterns '
+         '("no symbols given"). The model is tied to the code by a three-way differential run (model vs '
          'expand_name_patterns vs sympy.symbols) including the scanner against re.split with the regex extracted from '
-         'the source by ast, and an oracle with sympy.symbols as reference.',
+         'the source by ast, element_of / elements_of on scalar, vector and product spaces with single names holding '
+         'blanks, escaped blanks/commas/colons, padding, empty and all-blank patterns, and an oracle with sympy.symbols '
+         'as reference plus expectations that follow from the construction of the pattern alone.',
     note='Partial in one named respect: that the implementation agrees with sympy.symbols is established by correspondence '
          'and oracle only (sympy\'s source is not modelled a second time). Escapes are in the model and in the '
          'correspondence; expand_spec is stated for backslash-free patterns plus a separate theorem for escaped names. '
          'Trusted: Lean kernel (+propext/Classical.choice/Quot.sound), the harness, Python str/int/re primitives as '
-         'modelled (ASCII int(), str.isspace table). For containers sympde documents that seq is ignored (sympy '
-         'propagates it): nesting compared with symbols(names), flattened names with symbols(names, seq=seq).',
+         'modelled (ASCII int(), str.isspace table). One open finding (C20-container-seq-nesting): for a list/tuple of '
+         'patterns seq is not passed on to the items (source comment "seq is ignored"; sympy propagates it), so '
+         'expand_name_patterns([\'x\',\'y\'], seq=True) keeps bare names where sympy nests 1-tuples - same names, '
+         'elements_of relies on it, not repaired; witness theorem container_seq_witness, reported as KNOWN-FINDING on every '
+         'run; on random containers nesting is compared with symbols(names), flattened names with symbols(names, seq=seq).',
     technique='Lean 4 proof by induction on the pattern grammar (scanner correctness, denotational semantics) + three-way differential correspondence',
     design='6/C20')
 
@@ -197,12 +214,18 @@ CHECKS['C17'] = dict(
          'chains get the same name IFF function, component and all multi-indices coincide; hygiene_needed (the '
          'hypothesis is necessary), prefixFree_hygienic (decidable sufficient condition), collision_u_x / collision_F_0 '
          '(counterexample theorems of the two open findings); symbolic_hom - commutes with sums, products, powers (base '
-         'and exponent), matrices, tuples, elementary functions; maxOrders_eq_true(_for) / maxOrders_ge_true - for '
+         'and exponent), matrices, tuples, elementary functions; symbolic_matrix_entries / symbolic_matrix_entry / '
+         'symbolic_matrix_shape / symbolic_tuple_entries - the conversion of an r x c matrix (any shape, square or not) '
+         'succeeds iff every entry converts and is the r x c matrix whose entry (i,j) is the conversion of entry (i,j) '
+         '(never another shape, no re-flow), likewise item by item for tuples; maxOrders_eq_true(_for) / maxOrders_ge_true - for '
          'every kernel whose chains are applied to functions or components, the reported maximal order per direction, '
          'overall or for one function, physical or logical, EQUALS the true maximum defined independently by a full '
          'traversal (inside functions, exponents, matrices, through blocks of the other kind). Tied to the code by a '
          'differential run on random kernels (SymbolicExpr, sort_partial_derivatives, get_index_*_atom, get_max_*) '
-         'and an oracle that re-traverses the real tree and compares symbols of pools of chains pairwise.',
+         'and an oracle that re-traverses the real tree, compares symbols of pools of chains pairwise, and converts '
+         'matrices of every shape up to 4x4 (rows, columns, rectangular blocks, both matrix classes) and tuples / lists '
+         'assembled from explicit entry descriptions, comparing shape and every entry with a result assembled from the '
+         'descriptions alone.',
     note='Four defects repaired (commits 53c782f, 6f3e6bc, cc04533, 4a16dc0: chains inside functions/exponents/matrices '
          'ignored; mixed chains attributed to no function; exponents not converted; outer block of a mixed chain dropped '
          'from the name); two open findings (un-hygienic names u_x, F_0). Trusted: Lean kernel '
@@ -411,12 +434,20 @@ CHECKS['C08'] = dict(
          'reject_sound_component_product / _component_difference / _difference_square / '
          '_component_difference_bilinear - u1*u2, u1*(u1-u2), (v1-v2)^2, u1*(u1-u2)*v are rejected for all names; '
          'shared_tag_accepts_nonlinear - the variant of the test with one tag for all arguments accepts u1*(u1-u2) and '
-         '(v1-v2)^2 (why the distinctness matters). Tied '
+         '(v1-v2)^2 (why the distinctness matters). Sums: verdict_is_conjunction - the verdict on a sum of integrals '
+         'is the conjunction of the verdicts on the integrals; reject_sound_any_integral, '
+         'reject_sound_cancel_across_regions - int_Omega(f v + v^2) plus any other integrals is rejected; '
+         'lumped_accepts_nonlinear - the variant that adds the integrands of all regions accepts '
+         'int_Omega(f v + v^2) + int_Gamma(x v - v^2); cancelling_terms_accepted / cancelling_terms_linear - the whole '
+         'integrand is compared after expansion: (v+f)^2 - v^2 - f^2 is accepted (and is linear in every differential '
+         'ring), while the term-by-term variant rejects it. Tied '
          'to the code by a differential run of the two constructors on random candidate forms (argument groups '
          's, v, sv, ss, sss, vv, ssv, svv on either side; linear ones incl. differences of same-kind components, and '
          'ones broken by a constant, power, self-product, sin/exp/sqrt, denominator, degree-one ratio, product of two '
          'components, edits that vanish when two same-kind components are identified, integrands or single integrals '
-         'without an argument group; 2D/3D, boundary terms) preceded on every seed by a fixed corpus of 66 forms, and '
+         'without an argument group, non-linear parts that cancel across two regions; linear ones written with '
+         'non-linear summands that cancel inside one integrand; 2D/3D, boundary terms) preceded on every seed by a '
+         'fixed corpus of 96 forms, and '
          'an oracle whose ground truth is known by construction and confirmed by instantiating every function (each '
          'component separately) with rich explicit polynomials and testing joint additivity and homogeneity exactly '
          'at rational points; it flags false accepts, false rejects and stray exceptions.',
